@@ -448,6 +448,16 @@ def run_file(ctx, rnd, ncases):
     lg = LG(rnd)
     cases = [lg.func(i) for i in range(ncases)]
     src = HEADER + "\n".join(c[5] for c in cases)
+    if rnd.random() < 0.15:
+        # a file that declares another encoding than utf-8 for itself (PEP 263) and is written in it: python still counts the
+        # columns of its instructions in utf-8 bytes
+        enc, a, b = rnd.choice([("latin-1", "é", "ü"), ("cp1251", "ж", "я"), ("iso-8859-15", "é", "ß")])
+        src = f"# -*- coding: {enc} -*-\n" + src.replace("中", a).replace("😀", b).replace("é", a).replace("ü", b)
+        try:
+            src.encode(enc)
+            ctx.count("files-written-in-a-declared-non-utf-8-encoding")
+        except UnicodeEncodeError:
+            src = src.split("\n", 1)[1]
     try:
         compile(src, "<gen>", "exec")
     except SyntaxError as e:
